@@ -582,5 +582,6 @@ pub fn run(ctx: &mut Ctx) {
     let avoid = ctx.avoid(SIG_A) && ctx.is_generate();
     let avoid_g = ctx.avoid(SIG_G) && ctx.is_generate();
     ctx.campaign("histories", CampaignCfg::new(t.pick(1_600, 30_000)).shards(16).shrink_iters(8), strategy, move |c: &Case| run_case_with(c, avoid, avoid_g));
+    ctx.campaign("rogue-responder", CampaignCfg::new(t.pick(160, 4_000)).shards(16).shrink_iters(6), super::c13_rogue::strategy, super::c13_rogue::run_case);
     ctx.campaign("inbound-bound", CampaignCfg::new(t.pick(480, 10_000)).shards(16).shrink_iters(8), bound_strategy, run_bound);
 }
